@@ -168,7 +168,7 @@ def run():
         # concurrent stage: the cold-cache cases of the small assets, all spellings, in the seed's order
         conc = [] if replay else [c for c in cases if c["prime"] == "" and c["path"]["cls"] != "big"]
         ccf = vf.write_ndjson(os.path.join(sd, "conc.ndjson"), conc)
-        gmps = "1,2,4,8,16,1,3" if thorough else "1,4"
+        gmps = "1,2,4,16,3" if thorough else "1,4"
         nconc = len(conc) * len(gmps.split(","))
 
         # ---- 2. execute on the real handler (thorough: also behind a real net/http server on loopback)
